@@ -175,6 +175,7 @@ impl Prop for C04 {
             return;
         }
         for i in a..b {
+            out.idx = Some(i);
             let c = &cs[i as usize];
             run_case(c, &world, name, out);
             out.nontrivial.insert(hash64(&c.key));
